@@ -45,5 +45,5 @@ RULES = [
     ("C14.1", C14_1, ["default"]),
     ("E-WAKER", pool2.E_WAKER_pool, ["default"]),
     # the abandoned attempt is continued: the pinned drop spawns exactly what as_delayed() returned, whenever it returned something
-    ("P10s", pool2.P10_aspects("spawn"), ["default"]),
+    ("P10s", pool2.P10_aspects("spawn", "keeps"), ["default"]),
 ]
